@@ -114,28 +114,23 @@ theorem unamb_tree (hk : 0 < k) : ∀ c : T, QU k tv c := by
     intro pv p rest hp hpv01 hl hall
     match ks, ih, hl, hall with
     | [], _, hl, hall =>
-      -- a leaf: the slice is `inter (tip set) {p}`
-      simp only [upA, upAL, upS, acctran, acctranL, A.flat, A.flatL, allSingle, List.all_cons, List.all_nil,
+      -- a leaf keeps its tip slice (fix a20daad): a one-state tip {x}
+      simp only [upA, upAL, upS, acctran, A.flat, A.flatL, allSingle, List.all_cons, List.all_nil,
         Bool.and_true, beq_iff_eq] at hall
-      have hx := isSingle_of k _ hall
-      have h01 : Set01 k (tv d.name) := hl d.name (by simp [T.leaves])
-      obtain ⟨h1, h2⟩ := inter_single k (tv d.name) pv p hp h01 hpv01 _ hx
-      simp only [upA, upAL, upS, acctran, acctranL, A.flat, A.flatL, List.map_cons, List.map_nil,
+      obtain ⟨hx1, hx2, hx3⟩ := single_spec k _ hall
+      simp only [upA, upAL, upS, acctran, A.flat, A.flatL, List.map_cons, List.map_nil,
         List.cons_append, List.nil_append, labelOf, labelOfL, List.headD_cons, List.drop_succ_cons, List.drop_zero,
         LT.s_node, LT.changes, LT.changesL, gv, at_tab, hp.1, if_true]
-      have hfit : (tv d.name).at (hd k (inter k (tv d.name) pv)) ≠ 0 := by
-        by_cases h0 : (tv d.name).at p = 0
-        · exact (h2 h0).1
-        · rw [h1 h0]; exact h0
-      refine ⟨trivial, by simp [fits, hx.1, hfit], ?_⟩
+      refine ⟨trivial, by simp [fits, hx1, hx2], ?_⟩
       by_cases h0 : (tv d.name).at p = 0
-      · have := (h2 h0).2
+      · have : ¬ hd k (tv d.name) = p := fun e => hx2 (e ▸ h0)
         simp [h0, this]
-      · have := h1 h0
-        simp [h0, this]
+      · have hph := hx3 p hp.1 h0
+        simp [h0, ← hph]
     | x :: xs, ih, hl, hall =>
       rw [leaves_node_cons] at hl
-      simp only [upA, acctran, A.flat, allSingle, List.all_cons, Bool.and_eq_true, beq_iff_eq] at hall
+      rw [acctran_upA_cons] at hall ⊢
+      simp only [A.flat, allSingle, List.all_cons, Bool.and_eq_true, beq_iff_eq] at hall
       obtain ⟨hS1, hrest⟩ := hall
       have hlc : ∀ n ∈ (T.node d pp (x :: xs)).leaves, leaf01 k tv n := by
         intro n hn; rw [leaves_node_cons] at hn; exact hl n hn
@@ -159,7 +154,7 @@ theorem unamb_tree (hk : 0 < k) : ∀ c : T, QU k tv c := by
         apply (hiff s hs).mp
         simp only [upS, cp, at_tab, hs, if_true] at hne
         split at hne <;> simp_all
-      simp only [upA, acctran, A.flat, List.map_cons, List.cons_append, labelOf, List.headD_cons,
+      simp only [A.flat, List.map_cons, List.cons_append, labelOf, List.headD_cons,
         List.drop_succ_cons, List.drop_zero, LT.s_node, LT.changes]
       refine ⟨hlist.1, by simp [fits, hS.1, hlist.2.1], ?_⟩
       rw [hlist.2.2, hkey, hupN]
